@@ -640,7 +640,25 @@ def fam_bigpasses(rng, n, tier, mode="float"):
     return cases
 
 
-FAMILIES_LATE = {"conv_large": fam_conv_large, "matmul_large": fam_matmul_large, "bigpasses": fam_bigpasses}
+def fam_bigshare(rng, n, tier, mode="exact"):
+    """long tracked arrays (2^12 .. 2^13+ elements) with two or three consumers, one of them broadcasting the array
+    over rows: the contributions are reduced to the array's shape before they are added, in either arrival order.
+    Run without the forward-mode reference (its cost is one evaluation per input element): implementation
+    against the model."""
+    cases = []
+    for (ln_, rowsl) in ((4096, (2,)), (8200, (2,)), (8192, (3,))):
+        for first in ("fresh", "broadcast"):
+            for rows in rowsl:
+                vals = [rng.randint(-3, 3) for _ in range(ln_)]
+                xv = [rng.randint(-3, 3) for _ in range(rows * ln_)]
+                L = ["new a %d %s" % (ln_, vals_s(vals, mode)), "tracked a", "new x %d,%d %s" % (rows, ln_, vals_s(xv, mode)),
+                     "scale r1 a %s" % sc(2, mode), "mul r2 x a", "sum t2 r2 2", "sum t1 r1 1",
+                     "add z t1 t2" if first == "fresh" else "add z t2 t1", "backward z -", "grad a", "backward z -", "grad a"]
+                cases.append(Case(L, ("bigshare", ln_, first, rows), ["long", "two-consumers", "len%d" % ln_], mode))
+    return cases
+
+
+FAMILIES_LATE = {"conv_large": fam_conv_large, "matmul_large": fam_matmul_large, "bigpasses": fam_bigpasses, "bigshare": fam_bigshare}
 
 # ---------------------------------------------------------------- family: reduce-map (C07)
 
